@@ -19,9 +19,9 @@ for d in "${ARGS[@]}"; do
   feat=""; grep -q -- "--features http" $d/AGENT_README.md && feat="--features http"
   cd $WT && git checkout -q -- . && git clean -fdq -- '*/tests/demo_*.rs' 2>/dev/null
   mkdir -p $WT/$crate/tests && cp $demo $WT/$crate/tests/
-  without=$(cd $WT && cargo test -p $crate $feat --offline --test $name 2>&1 | grep -E "^test result" | tail -1)
+  without=$(cd $WT && cargo test -p $crate $feat --offline --test $name 2>&1 | grep -a -E "^test result" | tail -1)
   if ! git -C $WT apply $d/patch.diff; then echo "{\"applies\": false}" > $d/confirm.json; continue; fi
-  with=$(cd $WT && cargo test -p $crate $feat --offline --test $name 2>&1 | grep -E "^test result|^error(\[E|: could not compile)" | tail -1)
+  with=$(cd $WT && cargo test -p $crate $feat --offline --test $name 2>&1 | grep -a -E "^test result|^error(\[E|: could not compile)" | tail -1)
   rm -f $WT/$crate/tests/$name.rs
   failing=$(cd $WT && cargo test --workspace --no-fail-fast --offline 2>&1 | grep -E "^test .* FAILED$|^error(\[E|: could not compile)" | sort | tr '\n' ' ')
   git -C $WT checkout -q -- .
